@@ -12,6 +12,10 @@
   ops (every op line starts with the family tag `cl`):
                 cl call [<method hex> [<params hex>]] | cl subscribe | cl batch <n> | cl regnotif <method hex>
                 | cl tbatch <u64|str|bool|pt|optu64> <n>   (batch_request::<R>, see `tdecOf`)
+                | cl subscribe <u64|str|bool|pt|optu64>   (subscribe::<Notif>: a typed stream, one item per notification:
+                                                           the payload decoded with `tdecOf`, `item:bad` = `Some(Err(_))`)
+                | cl deliver <hex> [for=<op>] [bin]       (`bin`: a binary frame; bytes that are not UTF-8 are no JSON text:
+                                                           the read task gives the connection up as for any garbage)
                 | cl notify | cl abandon <op> | cl deliver <text hex> | cl next <op> | cl drop <op>
                 | cl unsub <op> | cl gate open|shut | cl sizes | cl connected | cl deliverx <text hex> (= deliver; the
                 harness expects the text to be rejected)
@@ -22,6 +26,7 @@
 -/
 import JrpcVerif.Driver.Codec
 import JrpcVerif.Model.ClientMgr
+import JrpcVerif.Model.ClientTyped
 import JrpcVerif.Model.ParamsSeq
 namespace Jrpc.Driver
 open Jrpc Jrpc.Client
@@ -38,8 +43,13 @@ structure ClientSt where
   httpActive : Bool := false
   httpNext : Nat := 0
   httpStr : Bool := false
-  draining : List ChanId := []       -- streams consumed by `Subscription::unsubscribe`
+  -- streams being consumed by `Subscription::unsubscribe`, with the sequence number of the message the call has to get
+  -- into the front channel first (`to_back.send(msg).await`, then `while rx.next().await.is_some() {}`): while the
+  -- channel is full the caller waits for room and the stream is **not** drained yet
+  draining : List (ChanId × Nat) := []
+  consumed : Nat := 0                -- messages the send task has taken out of the front channel so far
   btypes : List (Nat × String) := [] -- result type of the typed batches (`cl tbatch`), by op
+  stypes : List (Nat × String) := [] -- item type of the typed streams (`cl subscribe <ty>`), by op
   active : Bool := false
 
 def errObjRepr (e : ErrObj) : String :=
@@ -89,6 +99,46 @@ def decPt (raw : Text) : Option TVal :=
      | some x, some y => some (.pt x y)
      | _, _ => none)
   | _ => none
+
+/-- `std::str::from_utf8` on the bytes of a binary frame: well-formed UTF-8 only (no overlong forms, no encoded
+surrogates, nothing above U+10FFFF, no truncated or stray continuation bytes).  `utf8Decode` (Model/Utf8.lean) is the
+inverse of `utf8Encode` on valid input and does not check this. -/
+def utf8Valid : List Nat → Bool
+  | [] => true
+  | b :: r =>
+    let cont (x : Nat) : Bool := 0x80 ≤ x && x ≤ 0xBF
+    if b < 0x80 then utf8Valid r
+    else if 0xC2 ≤ b && b ≤ 0xDF then
+      match r with
+      | b1 :: r1 => cont b1 && utf8Valid r1
+      | _ => false
+    else if 0xE0 ≤ b && b ≤ 0xEF then
+      match r with
+      | b1 :: b2 :: r2 =>
+        (if b == 0xE0 then 0xA0 ≤ b1 && b1 ≤ 0xBF else if b == 0xED then 0x80 ≤ b1 && b1 ≤ 0x9F else cont b1)
+          && cont b2 && utf8Valid r2
+      | _ => false
+    else if 0xF0 ≤ b && b ≤ 0xF4 then
+      match r with
+      | b1 :: b2 :: b3 :: r3 =>
+        (if b == 0xF0 then 0x90 ≤ b1 && b1 ≤ 0xBF else if b == 0xF4 then 0x80 ≤ b1 && b1 ≤ 0x8F else cont b1)
+          && cont b2 && cont b3 && utf8Valid r3
+      | _ => false
+    else false
+
+-- `{"r":"caf<bytes>!"}` with the byte sequences the harness damages strings with, and two well-formed ones
+example : utf8Valid [0x63, 0xFF, 0x21] = false ∧ utf8Valid [0x63, 0xC3, 0x21] = false ∧ utf8Valid [0x63, 0xE2, 0x82, 0x21] = false ∧
+    utf8Valid [0x63, 0xC0, 0xAF, 0x21] = false ∧ utf8Valid [0x63, 0xA9, 0x21] = false ∧ utf8Valid [0x63, 0xED, 0xA0, 0x80, 0x21] = false ∧
+    utf8Valid [0x63, 0xF8, 0x88, 0x80, 0x80, 0x80, 0x21] = false ∧ utf8Valid [0x63, 0xF4, 0x90, 0x80, 0x80] = false ∧
+    utf8Valid [0x63, 0xC3, 0xA9, 0x21] = true ∧ utf8Valid [0xE2, 0x82, 0xAC, 0xF0, 0x9F, 0x98, 0x80, 0xED, 0x9F, 0xBF, 0xF4, 0x8F, 0xBF, 0xBF] = true := by
+  decide
+
+/-- the text of a delivered frame, if its bytes are UTF-8 -/
+def frameText (h : String) : Option Text :=
+  if h == "-" then some [] else
+  match unhexBytes h.toList with
+  | some bs => if utf8Valid bs then utf8Decode bs else none
+  | none => none
 
 def tdecOf (ty : String) : Option (Text → Option TVal) :=
   match ty with
@@ -164,9 +214,9 @@ def sendLoop : Nat → ClientSt → Acc → ClientSt × Acc
     let r := step cs.st (.sendTask 0)
     let ws := wiresOf r.effs
     let a1 := { a with comps := a.comps ++ completionsOfT cs.btypes r.effs }
-    if ws.isEmpty then sendLoop fuel { cs with st := r.st } a1
-    else if cs.gateOpen then sendLoop fuel { cs with st := r.st } { a1 with wires := a1.wires ++ ws }
-    else ({ cs with st := r.st, stuck := true, held := ws }, a1)
+    if ws.isEmpty then sendLoop fuel { cs with st := r.st, consumed := cs.consumed + 1 } a1
+    else if cs.gateOpen then sendLoop fuel { cs with st := r.st, consumed := cs.consumed + 1 } { a1 with wires := a1.wires ++ ws }
+    else ({ cs with st := r.st, consumed := cs.consumed + 1, stuck := true, held := ws }, a1)
 
 /-- a task inside `Subscription::unsubscribe` consumes the stream until it ends, then drops it -/
 def drainOne : Nat → St → ChanId → St × Bool
@@ -179,9 +229,11 @@ def drainOne : Nat → St → ChanId → St × Bool
     | _ => (r.st, false)
 
 def drainAll (cs : ClientSt) : ClientSt :=
-  cs.draining.foldl (fun acc c =>
+  cs.draining.foldl (fun acc (c, seq) =>
+    -- the message is in the channel (or already taken out of it) once fewer than `fcap` messages are ahead of it
+    if seq ≥ acc.consumed + acc.fcap then acc else
     let (st', done) := drainOne ((acc.st.core.chans[c]?.map (·.buf.length)).getD 0 + 2) acc.st c
-    { acc with st := st', draining := if done then acc.draining.filter (· != c) else acc.draining }) cs
+    { acc with st := st', draining := if done then acc.draining.filter (·.1 != c) else acc.draining }) cs
 
 def settle (cs : ClientSt) (a : Acc) : ClientSt × Acc :=
   let (cs1, a1) := sendLoop (cs.st.pool.length + 1) cs a
@@ -190,7 +242,17 @@ def settle (cs : ClientSt) (a : Acc) : ClientSt × Acc :=
 def chanOfOp (st : St) (op : Nat) : Option ChanId :=
   st.core.chans.findIdx? (fun ch => ch.op == op)
 
-def applyStep (cs : ClientSt) (s : Step) : ClientSt × String :=
+/-- what a typed stream yields for one raw item: the front-end `Stream` impl decodes **every** buffered payload and
+yields the outcome, `Ok` or `Err` — exactly one stream item per notification (`Jrpc.Client.typedItems`) -/
+def itemRepr (δ : Option (Text → Option TVal)) (p : Text) : String :=
+  match δ with
+  | none => s!"item:{hexText p}"
+  | some d =>
+    match Jrpc.Client.typedItem d p with
+    | some v => s!"item:{hexText v.text}"
+    | none => "item:bad"
+
+def applyStep (cs : ClientSt) (s : Step) (δ : Option (Text → Option TVal) := none) : ClientSt × String :=
   let r := step cs.st s
   let a : Acc := { comps := completionsOfT cs.btypes r.effs }
   match r.fatal with
@@ -199,7 +261,7 @@ def applyStep (cs : ClientSt) (s : Step) : ClientSt × String :=
     let (cs', a') := settle { cs with st := r.st } a
     let extra := match r.out with
       | .none => []
-      | .item p => [s!"item:{hexText p}"]
+      | .item p => [itemRepr δ p]
       | .pending => ["pending"]
       | .ended l => [if l then "end:lagged" else "end:closed"]
     (cs', ({ a' with extra := extra }).render)
@@ -304,6 +366,10 @@ def clientVerbCore (cs : ClientSt) (ws : List String) : Option (ClientSt × Stri
          | some meth, some ps => applyStep cs (.newCall meth (some ps))
          | _, _ => (cs, "bad-op"))
       | "subscribe", [] => applyStep cs (.newSubscribe tSub tUnsub)
+      | "subscribe", [ty] =>
+        (match tdecOf ty with
+         | some _ => applyStep { cs with stypes := (cs.st.nextOp, ty) :: cs.stypes } (.newSubscribe tSub tUnsub)
+         | none => (cs, "bad-op"))
       | "batch", [n] =>
         (match n.toNat? with
          | some k => if k == 0 then (cs, "bad-op") else applyStep cs (.newBatch tM k)
@@ -325,12 +391,17 @@ def clientVerbCore (cs : ClientSt) (ws : List String) : Option (ClientSt × Stri
          | some op => applyStep cs (.abandon op)
          | none => (cs, "bad-op"))
       | "deliver", [h] =>
-        (match unhexText h with
+        (match frameText h with
          | some t => applyStep cs (.recv t)
-         | none => (cs, "bad-op"))
+         | none =>
+           -- bytes (of a binary frame) that are not UTF-8: not a JSON text, hence no message of any kind — the same
+           -- outcome as `.recv` of a text that is garbage (`handleBack`: state unchanged, `Fatal.unparseable`)
+           match unhexBytes h.toList with
+           | some _ => ({ cs with halted := true, cause := "unparseable" }, fatalRepr .unparseable)
+           | none => (cs, "bad-op"))
       | "next", [o] =>
         (match o.toNat?.bind (chanOfOp cs.st) with
-         | some c => applyStep cs (.next c)
+         | some c => applyStep cs (.next c) ((o.toNat?.bind (fun op => cs.stypes.lookup op)).bind tdecOf)
          | none => (cs, "bad-op"))
       | "drop", [o] =>
         (match o.toNat?.bind (chanOfOp cs.st) with
@@ -338,7 +409,10 @@ def clientVerbCore (cs : ClientSt) (ws : List String) : Option (ClientSt × Stri
          | none => (cs, "bad-op"))
       | "unsub", [o] =>
         (match o.toNat?.bind (chanOfOp cs.st) with
-         | some c => applyStep { cs with draining := cs.draining ++ [c] } (.unsubscribeStream c)
+         | some c =>
+           let queued := (step cs.st (.unsubscribeStream c)).st.pool.length > cs.st.pool.length
+           applyStep { cs with draining := cs.draining ++ [(c, if queued then cs.consumed + cs.st.pool.length else 0)] }
+             (.unsubscribeStream c)
          | none => (cs, "bad-op"))
       | "gate", ["shut"] => ({ cs with gateOpen := false }, "-")
       | "gate", ["open"] =>
@@ -360,8 +434,10 @@ def clientAlias : List String → List String
   | ["hc", "tbatchx", ty, n, h] => ["hc", "tbatch", ty, n, h]
   | ["hc", "callx", h] => ["hc", "call", h]
   | ["cl", "deliverx", h] => ["cl", "deliver", h]
-  | ["cl", "deliver", h, _] => ["cl", "deliver", h]      -- `for=<op>`: whom the mock server answers (oracle only)
+  | ["cl", "deliver", h, _] => ["cl", "deliver", h]      -- `for=<op>`: whom the mock server answers (oracle only); `bin`: binary frame
   | ["cl", "deliverx", h, _] => ["cl", "deliver", h]
+  | ["cl", "deliver", h, _, _] => ["cl", "deliver", h]
+  | ["cl", "deliverx", h, _, _] => ["cl", "deliver", h]
   | ws => ws
 
 def clientVerb (cs : ClientSt) (ws : List String) : Option (ClientSt × String) := clientVerbCore cs (clientAlias ws)
